@@ -456,6 +456,7 @@ class App:
 
         body: Iterable[bytes] = []
         length: Optional[int] = 0
+        has_content_type = 'content-type' in resp._headers
 
         try:
             body, length = self._get_body(resp, env.get('wsgi.file_wrapper'))
@@ -481,6 +482,10 @@ class App:
             # enforced.
             if resp_status in _TYPELESS_STATUS_CODES:
                 default_media_type = None
+                if not has_content_type:
+                    # NOTE: Rendering resp.media fills in the default media
+                    #   type as a side effect; do not send it along.
+                    resp._headers.pop('content-type', None)
             elif (
                 length is not None
                 and req.method == 'HEAD'
